@@ -21,7 +21,7 @@ import (
 )
 
 type input struct {
-	Kind    string     `json:"kind"` // key | bucket | split | splitseq | dispatch
+	Kind    string     `json:"kind"` // key | bucket | split | splitseq | dispatch | tagged
 	Src     string     `json:"src,omitempty"`
 	Tags    []string   `json:"tags,omitempty"`
 	Name    []int      `json:"name,omitempty"`
@@ -47,6 +47,11 @@ type input struct {
 	// the results of earlier rounds referenced and re-reads them at the end.
 	Ns   []int `json:"ns,omitempty"`
 	Hold bool  `json:"hold,omitempty"`
+	// tagged: a real TagHandler (static tags, optional drop-tag / drop-host filter) in front of
+	// the BackendHandler; batches as for dispatch
+	Static   []string `json:"static,omitempty"`
+	DropTags []string `json:"droptags,omitempty"`
+	DropHost bool     `json:"drophost,omitempty"`
 }
 
 func bs(a []int) string {
@@ -114,6 +119,21 @@ func dispatch(batches []*gostatsd.MetricMap, in input, mon *[]string) [][]*gosta
 		return a
 	})
 	bh := statsd.NewBackendHandler(nil, 1, n, qsize, af)
+	// what the batches are handed to: the BackendHandler itself or the tag stage in front of it
+	var front interface {
+		DispatchMetricMap(context.Context, *gostatsd.MetricMap)
+	} = bh
+	if in.Kind == "tagged" {
+		var filters []statsd.Filter
+		if len(in.DropTags) > 0 || in.DropHost {
+			f := statsd.Filter{DropHost: in.DropHost}
+			for _, p := range in.DropTags {
+				f.DropTags = append(f.DropTags, gostatsd.NewStringMatch(p))
+			}
+			filters = append(filters, f)
+		}
+		front = statsd.NewTagHandler(bh, append(gostatsd.Tags(nil), in.Static...), filters)
+	}
 	ctx, cancel := context.WithCancel(context.Background())
 	done := make(chan struct{})
 	go func() { bh.Run(ctx); close(done) }()
@@ -151,13 +171,13 @@ func dispatch(batches []*gostatsd.MetricMap, in input, mon *[]string) [][]*gosta
 		for i, mm := range phaseA {
 			i, mm := i, mm
 			wg.Add(1)
-			go func() { defer wg.Done(); bh.DispatchMetricMap(ctxs[i], mm) }()
+			go func() { defer wg.Done(); front.DispatchMetricMap(ctxs[i], mm) }()
 		}
 		go func() { wg.Wait(); close(dispatched) }()
 	} else {
 		go func() {
 			for i, mm := range phaseA {
-				bh.DispatchMetricMap(ctxs[i], mm)
+				front.DispatchMetricMap(ctxs[i], mm)
 			}
 			close(dispatched)
 		}()
@@ -211,7 +231,7 @@ func dispatch(batches []*gostatsd.MetricMap, in input, mon *[]string) [][]*gosta
 		doneB := make(chan struct{})
 		go func() {
 			for _, mm := range phaseB {
-				bh.DispatchMetricMap(context.Background(), mm)
+				front.DispatchMetricMap(context.Background(), mm)
 			}
 			close(doneB)
 		}()
@@ -368,6 +388,85 @@ func runOne(em *hlib.Emitter, in input) {
 		c.Obs = map[string]int{"series": series, "rounds": nr}
 		c.Coq = hlib.App("SplitSeqCase", hlib.List(rounds))
 		c.Nontrivial = series >= 2 && nr >= 2
+	case "tagged":
+		nb := in.Batches
+		if nb < 1 {
+			nb = 1
+		}
+		per := make([][]mmgen.Dp, nb)
+		for j, d := range in.Dps {
+			per[j%nb] = append(per[j%nb], d)
+		}
+		maps := make([]*gostatsd.MetricMap, nb)
+		for b := range per {
+			maps[b] = mmgen.Build(per[b])
+		}
+		in2 := in
+		in2.Cancel, in2.After = nil, 0
+		var got [][]*gostatsd.MetricMap
+		if msg := hlib.Recover(func() { got = dispatch(maps, in2, &c.Monitors) }); msg != "" {
+			c.Monitors = append(c.Monitors, "tagged dispatch panicked: "+msg)
+			break
+		}
+		// invariants every entry a worker received must satisfy, whatever the tag stage did:
+		// it is stored under the tags key of ITS OWN tags and source, that key's bucket is the
+		// worker, and one identity (name, tag set, source) has one key and one worker
+		type ident struct{ name, tags, src string }
+		type place struct {
+			key string
+			w   int
+		}
+		home := map[ident]place{}
+		series := 0
+		obs := make([]string, len(got))
+		for w, ms := range got {
+			w := w
+			var dl []string
+			chk := func(n, k string, src gostatsd.Source, tags gostatsd.Tags) {
+				series++
+				cp := append(gostatsd.Tags(nil), tags...)
+				if want := gostatsd.FormatTagsKey(src, cp); want != k {
+					c.Monitors = append(c.Monitors, fmt.Sprintf("series %q stored under key %q but its tags %q and source %q have key %q", n, k, []string(tags), src, want))
+				}
+				if b := gostatsd.Bucket(n, k, in.N); b != w {
+					c.Monitors = append(c.Monitors, fmt.Sprintf("series %q/%q delivered to worker %d but Bucket says %d", n, k, w, b))
+				}
+				set := map[string]bool{}
+				for _, t := range tags {
+					set[t] = true
+				}
+				var ts []string
+				for t := range set {
+					ts = append(ts, t)
+				}
+				sort.Strings(ts)
+				id := ident{n, fmt.Sprintf("%q", ts), string(src)}
+				if h, ok := home[id]; ok && h != (place{k, w}) {
+					c.Monitors = append(c.Monitors, fmt.Sprintf("series %q tags %v source %q is key %q at worker %d and key %q at worker %d", n, ts, src, h.key, h.w, k, w))
+				}
+				home[id] = place{k, w}
+			}
+			for _, m := range ms {
+				dl = append(dl, mmgen.Entries(m))
+				m.Counters.Each(func(n, k string, v gostatsd.Counter) { chk(n, k, v.Source, v.Tags) })
+				m.Gauges.Each(func(n, k string, v gostatsd.Gauge) { chk(n, k, v.Source, v.Tags) })
+				m.Timers.Each(func(n, k string, v gostatsd.Timer) { chk(n, k, v.Source, v.Tags) })
+				m.Sets.Each(func(n, k string, v gostatsd.Set) { chk(n, k, v.Source, v.Tags) })
+			}
+			obs[w] = hlib.List(dl)
+		}
+		exact := len(in.DropTags) == 0 && !in.DropHost
+		c.Obs = map[string]int{"series": series, "workers": in.N, "batches": nb}
+		bl := make([]string, nb)
+		for b := range per {
+			dps := make([]string, len(per[b]))
+			for i, d := range per[b] {
+				dps[i] = d.Coq()
+			}
+			bl[b] = hlib.List(dps)
+		}
+		c.Coq = hlib.App("TaggedCase", hlib.List(bl), hlib.StrList(in.Static), hlib.Bool(exact), hlib.Nat(in.N), hlib.List(obs))
+		c.Nontrivial = series >= 2 && in.N >= 2
 	case "dispatch":
 		nb := in.Batches
 		if nb < 1 {
@@ -523,6 +622,60 @@ func genDps(r *hlib.Rand, u *mmgen.Universe, lo, hi int) []mmgen.Dp {
 	return dps
 }
 
+// genTagged: a few base series (name, tag set, source), each sent several times across the
+// batches in different spellings: tags permuted, tags duplicated, static tags already present
+// or not (a duplicate removed + a static tag appended keeps the tag count).
+func genTagged(r *hlib.Rand) input {
+	u := universe(r, r.Chance(1, 3))
+	statics := [][]string{{}, {"env:prod"}, {"env:prod", "region:us"}, {"region:us", "env:prod", "az:a"}, {"a"}, {"env:prod", "env:prod"}}
+	in := input{Kind: "tagged", N: hlib.Pick(r, []int{1, 2, 3, 4, 5, 8, 16, r.Range(1, 64)}), Batches: r.Range(1, 4),
+		Static: append([]string{}, hlib.Pick(r, statics)...)}
+	pool := append(append([]string{"region:us", "env:prod", "az:a", "b:1", "drop:x", "drop:y", "host:h"}, u.Tags...), in.Static...)
+	if r.Chance(1, 4) {
+		in.DropTags = []string{"drop:*"}
+		in.DropHost = r.Chance(1, 3)
+	}
+	if r.Chance(1, 4) {
+		in.Pressure, in.Q, in.Conc = true, r.Intn(3), r.Bool()
+		if in.N > 1 {
+			in.Slow = []int{r.Intn(in.N)}
+		}
+	}
+	for b := r.Range(1, 5); b > 0; b-- {
+		proto := u.Dp(r, 100, 110) // name, source, type of the base series
+		var base []string
+		for k := r.Intn(4); k > 0; k-- {
+			base = append(base, hlib.Pick(r, pool))
+		}
+		for sp := r.Range(1, 5); sp > 0; sp-- {
+			d := u.Dp(r, 100, 110)
+			d.Name, d.Source = proto.Name, proto.Source
+			if r.Chance(3, 4) { // same type as the base series (value fields consistent with it)
+				d.Type, d.Value, d.Rate, d.StrVal = proto.Type, proto.Value, proto.Rate, proto.StrVal
+			}
+			tags := append([]string{}, base...)
+			for k := r.Intn(3); k > 0 && len(base) > 0; k-- { // duplicates
+				tags = append(tags, hlib.Pick(r, base))
+			}
+			for _, st := range in.Static { // static tags already present, possibly twice
+				if r.Chance(1, 3) {
+					tags = append(tags, st)
+					if r.Chance(1, 4) {
+						tags = append(tags, st)
+					}
+				}
+			}
+			for k := len(tags) - 1; k > 0; k-- { // permute
+				j := r.Intn(k + 1)
+				tags[k], tags[j] = tags[j], tags[k]
+			}
+			d.Tags = tags
+			in.Dps = append(in.Dps, d)
+		}
+	}
+	return in
+}
+
 func gen(r *hlib.Rand, i int) input {
 	switch i % 8 {
 	case 0: // tags key
@@ -611,6 +764,8 @@ func gen(r *hlib.Rand, i int) input {
 			n = r.Range(1, 16)
 		}
 		return input{Kind: "dispatch", N: n, Batches: r.Range(1, 4), Dps: genDps(r, u, 0, 40)}
+	case 5: // tag stage in front of the dispatcher: one series in several spellings
+		return genTagged(r)
 	case 4: // Split called repeatedly in one process
 		u := universe(r, r.Bool())
 		in := input{Kind: "splitseq", Hold: r.Bool(), Dps: genDps(r, u, 4, 60)}
